@@ -339,4 +339,11 @@ def r07_fixed_point(ctx):
         ctx.functions.add(q)
 
 
-RULES = [('R07.10', r07_fixed_point), ('R07.8', r07_vlq), ('R07.9', r07_codec), ('R07-induction', r07_induction), ('R07-scenarios', r07_scenarios), ('R07.5', r07_5), ('R07.4', r07_4), ('R07-file', r07_file), ('R07.1-time', r07_1_time)]
+def r07_clip(ctx):
+    """Loading with clip=True is the same round trip for files whose data bytes are all below 128 (everything save() writes):
+    the clip option only touches bytes above 127 (shared with C08 R08.5)."""
+    from . import c08
+    ctx.borrow(c08.r08_clip, 'R07.11')
+
+
+RULES = [('R07.11', r07_clip), ('R07.10', r07_fixed_point), ('R07.8', r07_vlq), ('R07.9', r07_codec), ('R07-induction', r07_induction), ('R07-scenarios', r07_scenarios), ('R07.5', r07_5), ('R07.4', r07_4), ('R07-file', r07_file), ('R07.1-time', r07_1_time)]
